@@ -651,3 +651,115 @@ func canonCompare(cond ast.Expr) ast.Expr {
 	}
 	return &ast.BinaryExpr{X: be.Y, OpPos: be.OpPos, Op: op, Y: be.X}
 }
+
+// PathEdgesFrom searches a path from the beginning of the block start to a
+// block for which blockTarget holds, following at a two way branch only the
+// edges that edgeOK admits; barrier nodes end a path.
+func (f *FCFG) PathEdgesFrom(start *cfg.Block, blockTarget func(*cfg.Block) bool, barrier func(ast.Node) bool, edgeOK func(cond ast.Expr, val bool) bool) bool {
+	visited := map[int32]bool{start.Index: true}
+	var walk func(b *cfg.Block) bool
+	walk = func(b *cfg.Block) bool {
+		for _, n := range b.Nodes {
+			if barrier != nil && barrier(n) {
+				return false
+			}
+		}
+		cond := f.condOf(b)
+		for i, s := range b.Succs {
+			if cond != nil && len(b.Succs) == 2 && edgeOK != nil && !edgeOK(cond, i == 0) {
+				continue
+			}
+			if blockTarget(s) {
+				return true
+			}
+			if visited[s.Index] {
+				continue
+			}
+			visited[s.Index] = true
+			if walk(s) {
+				return true
+			}
+		}
+		return false
+	}
+	return walk(start)
+}
+
+// PathEdgesFromNode searches a path that starts right after the node from and
+// reaches a node for which target holds, following at a two way branch only
+// the edges that edgeOK admits; barrier nodes end a path.
+func (f *FCFG) PathEdgesFromNode(from ast.Node, target, barrier func(ast.Node) bool, edgeOK func(cond ast.Expr, val bool) bool) (bool, ast.Node) {
+	sb, si, ok := f.Pos(from)
+	if !ok {
+		return false, nil
+	}
+	visited := map[int32]bool{}
+	var hit ast.Node
+	var walk func(b *cfg.Block, idx int) bool
+	walk = func(b *cfg.Block, idx int) bool {
+		for i := idx; i < len(b.Nodes); i++ {
+			n := b.Nodes[i]
+			if target(n) {
+				hit = n
+				return true
+			}
+			if barrier != nil && barrier(n) {
+				return false
+			}
+		}
+		cond := f.condOf(b)
+		for i, s := range b.Succs {
+			if cond != nil && len(b.Succs) == 2 && edgeOK != nil && !edgeOK(cond, i == 0) {
+				continue
+			}
+			if visited[s.Index] {
+				continue
+			}
+			visited[s.Index] = true
+			if walk(s, 0) {
+				return true
+			}
+		}
+		return false
+	}
+	if walk(sb, si+1) {
+		return true, hit
+	}
+	return false, nil
+}
+
+// PathEdgesFromBlock is PathEdgesFromNode starting at the beginning of a block.
+func (f *FCFG) PathEdgesFromBlock(start *cfg.Block, target, barrier func(ast.Node) bool, edgeOK func(cond ast.Expr, val bool) bool) (bool, ast.Node) {
+	visited := map[int32]bool{start.Index: true}
+	var hit ast.Node
+	var walk func(b *cfg.Block) bool
+	walk = func(b *cfg.Block) bool {
+		for _, n := range b.Nodes {
+			if target(n) {
+				hit = n
+				return true
+			}
+			if barrier != nil && barrier(n) {
+				return false
+			}
+		}
+		cond := f.condOf(b)
+		for i, s := range b.Succs {
+			if cond != nil && len(b.Succs) == 2 && edgeOK != nil && !edgeOK(cond, i == 0) {
+				continue
+			}
+			if visited[s.Index] {
+				continue
+			}
+			visited[s.Index] = true
+			if walk(s) {
+				return true
+			}
+		}
+		return false
+	}
+	if walk(start) {
+		return true, hit
+	}
+	return false, nil
+}
